@@ -624,10 +624,16 @@ func stackDeadlines(vecPath string, res *hx.Result) {
 	var wg sync.WaitGroup
 	var mu sync.Mutex
 	distinct := 0
+	sem := make(chan struct{}, 64)
 	for _, v := range vecs {
+		if res.NViol() >= 6 {
+			break // (a broken library may leave goroutines spinning in every pair: enough has been seen)
+		}
 		wg.Add(1)
+		sem <- struct{}{}
 		go func(v dlVector) {
 			defer wg.Done()
+			defer func() { <-sem }()
 			rig, err := newStackRig(1 << 20)
 			if err != nil {
 				res.Violate("harness", "harness:stack-rig", err.Error(), nil)
